@@ -315,9 +315,84 @@ fn run_large_binaries(ctx: &mut Ctx) {
     }
 }
 
+/// Databases with a protected value of more than 1 MiB: too large for the executable model; observed: save succeeds, the file opens
+/// to the same database, and the stored form of the value (read from the payload by the independent reader) does not equal the
+/// plaintext over any stretch of 24 bytes, nor is it the bare base64 of the plaintext (op `specOnly`).
+fn run_large_protected(ctx: &mut Ctx) {
+    let mut rng = ctx.rng.fork();
+    let mib = 1usize << 20;
+    for (inner, len) in [(InnerCipherConfig::ChaCha20, mib + mib / 4), (InnerCipherConfig::Salsa20, 2 * mib + 5), (InnerCipherConfig::ChaCha20, mib)] {
+        let secret: Vec<u8> = (0..len).map(|_| b'!' + (rng.below(90) as u8)).collect();
+        let mut db = Database::new(DatabaseConfig {
+            version: DatabaseVersion::KDB4(0),
+            outer_cipher_config: OuterCipherConfig::ChaCha20,
+            compression_config: CompressionConfig::None,
+            inner_cipher_config: inner.clone(),
+            kdf_config: KdfConfig::Aes { rounds: 1 },
+        });
+        let mut e = Entry::default();
+        e.uuid = uuid::Uuid::from_bytes([9; 16]);
+        e.fields.insert("Title".into(), Value::Unprotected("large secret".into()));
+        e.fields.insert("Password".into(), Value::Protected(secstr::SecStr::new(secret.clone())));
+        db.root.children.push(Node::Entry(e));
+        let key = DatabaseKey::new().with_password("pw");
+        let comp = ref_composite(&Some("pw".to_string()), &None).unwrap();
+        let mut buf = Vec::new();
+        let saved = catch(|| db.save(&mut buf, key.clone()));
+        let save_s = match &saved {
+            Ok(Ok(())) => "ok".to_string(),
+            Ok(Err(e)) => format!("err:{}", e),
+            Err(p) => format!("panic:{}", p.site()),
+        };
+        let mut leaks: Vec<String> = Vec::new();
+        let (reopen, equal) = if save_s == "ok" {
+            match kdbx::unwrap_kdbx4(&buf, &comp) {
+                Ok(un) => {
+                    let xml = String::from_utf8_lossy(&un.payload).to_string();
+                    // the longest text between two tags is the stored form of the value
+                    let stored = xml.split(|c| c == '<' || c == '>').max_by_key(|t| t.len()).unwrap_or("").to_string();
+                    if stored == b64enc(&secret) {
+                        leaks.push(format!("database-protected-value-as-plain-base64:value of {} bytes", len));
+                    }
+                    match b64dec(&stored) {
+                        Some(ct) if ct.len() == secret.len() => {
+                            let (mut run, mut best) = (0usize, 0usize);
+                            for (a, b) in ct.iter().zip(secret.iter()) {
+                                if a == b { run += 1; best = best.max(run); } else { run = 0; }
+                            }
+                            if best >= 24 {
+                                leaks.push(format!("stored-form-equals-plaintext-over-{}-bytes:value of {} bytes", best, len));
+                            }
+                        }
+                        _ => leaks.push(format!("stored-form-not-found:value of {} bytes", len)),
+                    }
+                    if xml.as_bytes().windows(40).any(|w| w == &secret[len - 40..]) {
+                        leaks.push(format!("database-protected-value-in-clear:value of {} bytes", len));
+                    }
+                }
+                Err(e) => leaks.push(format!("independent-reader-rejects-the-file:{:?}", e)),
+            }
+            match catch(|| Database::parse(&buf, key.clone())) {
+                Ok(Ok(d2)) => ("ok".to_string(), d2 == db),
+                Ok(Err(e)) => (format!("err:{}", e), false),
+                Err(p) => (format!("panic:{}", p.site()), false),
+            }
+        } else {
+            ("n/a".to_string(), false)
+        };
+        ctx.emit(json!({
+            "op": "specOnly", "sub": "large-protected",
+            "shape": format!("protected-value-of-{}-bytes-under-{:?}", len, inner),
+            "tags": ["large-protected"], "nontrivial": true,
+            "real": {"save": save_s, "reopen": reopen, "equal": equal, "file_len": buf.len(), "protected_leaks": leaks},
+        }));
+    }
+}
+
 pub fn run(ctx: &mut Ctx, hostile: bool) {
     // (also in the hostile run: C12 is about every database whose save succeeds)
     run_large_binaries(ctx);
+    run_large_protected(ctx);
     let count = if hostile { ctx.count(800, 20000) } else { ctx.count(300, 5000) };
     let mut seen_random: HashSet<Vec<u8>> = HashSet::new();
     let mut samples: HashMap<(String, usize), Vec<Vec<u8>>> = HashMap::new(); // per (value, length): all draws of this run
